@@ -58,6 +58,7 @@ LawClauses(r) ==
     <<"FreeDeltaHistory",
         ~r.fixed /\ Interior(r.dq) =>
             /\ FreeHistories \subseteq {r.fhist[i].name : i \in 1..Len(r.fhist)}
+            /\ \E i \in 1..Len(r.fhist) : r.fhist[i].name \in HugeConstructed
             /\ \A i \in 1..Len(r.fhist) :
                  LET v == r.fhist[i] IN
                    /\ Small(v.g) /\ DeltaClose(v.dd, r.dq) /\ AbClose(v.abl, r.dq)
